@@ -119,7 +119,7 @@ theorem keptIntervals_length (bounds : List Int) (nKept : Nat) :
   unfold keptIntervals
   rw [keptStarts_eq, List.length_map]
 
-theorem chunksKept_ok (bounds : List Int) (nKept : Nat) (hk : 1 ≤ nKept) (_hb : 2 ≤ bounds.length) :
+theorem chunksKept_ok (bounds : List Int) (nKept : Nat) (hk : 1 ≤ nKept) :
     keptOK bounds nKept (chunksKept bounds nKept) = true := by
   unfold keptOK
   rw [Bool.and_eq_true, beq_iff_eq, decide_eq_true_eq]
@@ -201,7 +201,7 @@ theorem parity_iff_in_kept' (bounds : List Int) (nKept : Nat) (hg : GridOK bound
     rw [List.mem_filter, List.mem_range] at hi hj
     exact getD_le_of_pairwise bounds hg.2 (i + 1) j (by omega) (by omega)
 
-theorem parity_iff_in_kept (bounds : List Int) (nKept : Nat) (_hk : 1 ≤ nKept) (hg : GridOK bounds)
+theorem parity_iff_in_kept (bounds : List Int) (nKept : Nat) (hg : GridOK bounds)
     (t : Int) :
     timeInChunks (chunksKept bounds nKept) t = inKept bounds nKept t :=
   parity_iff_in_kept' bounds nKept hg t
@@ -323,7 +323,7 @@ theorem cluster_clause (choose : List Nat → Nat → List Nat) (hch : ChooseOK 
       exact hall hsel
 
 theorem selection_ok (choose : List Nat → Nat → List Nat) (hch : ChooseOK choose) (x : Inp)
-    (_hk : 1 ≤ x.nKept) (hg : GridOK x.bounds) :
+    (hg : GridOK x.bounds) :
     SpecOK x (selectWith choose x) = true := by
   cases hne : x.req.isEmpty with
   | true =>
